@@ -15,13 +15,15 @@ func priceGrid(tier string) (*PureEvidence, []Found) {
 	found := map[string]*Found{}
 	rig := NewRig(RigConfig{})
 	ps := defaultParams()
-	bases := []int64{0, 1, 2, 3, 10, 999}
+	bases := []int64{0, 1, 2, 3, 6, 10, 999, 1000000000000000000}
 	ts := func(sec int) string { return T0.Add(timeSec(sec)).Format("2006-01-02T15:04:05Z") }
 	timeLayouts := []string{
 		"",
 		fmt.Sprintf(`[{"start_time":"%s","end_time":"%s","discount":"0.5"}]`, ts(10), ts(20)),
 		fmt.Sprintf(`[{"start_time":"%s","end_time":"%s","discount":"0.5"},{"start_time":"%s","end_time":"%s","discount":"0.8"}]`, ts(10), ts(20), ts(20), ts(30)),
 		fmt.Sprintf(`[{"start_time":"%s","end_time":"%s","discount":"0.3"},{"start_time":"%s","end_time":"%s","discount":"0.9"}]`, ts(10), ts(20), ts(25), ts(35)),
+		// discounts with 18 decimals whose product with an 18-decimal volume discount lies just below an integer
+		fmt.Sprintf(`[{"start_time":"%s","end_time":"%s","discount":"0.333333333333333334"}]`, ts(10), ts(20)),
 		// windows listed newest first: the unmodified module refuses such a pricing (counted, not priced)
 		fmt.Sprintf(`[{"start_time":"%s","end_time":"%s","discount":"0.9"},{"start_time":"%s","end_time":"%s","discount":"0.3"}]`, ts(25), ts(35), ts(10), ts(20)),
 	}
@@ -31,6 +33,7 @@ func priceGrid(tier string) (*PureEvidence, []Found) {
 		`[{"volume":1,"discount":"0.9"}]`,
 		`[{"volume":2,"discount":"0.9"},{"volume":4,"discount":"0.5"}]`,
 		`[{"volume":1,"discount":"0.9"},{"volume":3,"discount":"0.5"},{"volume":4,"discount":"0.1"}]`,
+		`[{"volume":1,"discount":"0.999999999999999998"},{"volume":3,"discount":"0.333333333333333333"}]`,
 	}
 	vols := []uint64{0, 1, 2, 3, 4, 5, 6}
 	distinct := map[string]bool{}
@@ -46,12 +49,12 @@ func priceGrid(tier string) (*PureEvidence, []Found) {
 				}
 				text := "{" + strings.Join(parts, ",") + "}"
 				// a world holding exactly this binding, created by real messages
-				s := rig.Genesis(ps, []Funding{{O1, 5000}, {C1, 10}}, allAccounts)
+				s := rig.Genesis(ps, []Funding{{O1, -30}, {C1, 10}}, allAccounts)
 				w := rig.Restore(s)
 				if res := w.DeliverMsg(st.NewMsgDefineService("a", "", nil, AU, "", schemasOK), nil, 0); !res.OK() {
 					panic("price grid setup: " + res.ErrString())
 				}
-				if res := w.DeliverMsg(st.NewMsgBindService("a", P1, coins(2000), text, 1, "{}", O1), nil, 0); !res.OK() {
+				if res := w.DeliverMsg(st.NewMsgBindService("a", P1, bigCoins("3000000000000000000"), text, 1, "{}", O1), nil, 0); !res.OK() {
 					ev.Counters["pricing-refused-by-module"]++
 					continue
 				}
